@@ -52,7 +52,7 @@ package grpcutil
 //@   loop 1: invariant 0 <= i && i < len(msg)
 //@           invariant forall k int :: 0 <= k && k < len(sbContent[out]) ==> sbContent[out][k] >= 32 && sbContent[out][k] <= 126
 //@           invariant len(sbContent[out]) == pctLen(msg, i)
-//@           invariant forall k int :: 0 <= k && k < i ==> pctAt(sbContent[out], msg, k)
+//@           invariant forall k int :: 0 <= k && k < i ==> pctAt(sbContent[out], msg, k) && pctLen(msg, k) >= 0 && pctLen(msg, k) + (escByte(msg[k]) ? 3 : 1) <= len(sbContent[out])
 
 // The state of a left-to-right scan of a percent-encoded message after n bytes, as the
 // reference client's wire examiner does it: number of hex digits still owed (0..2), or -1
